@@ -24,6 +24,7 @@ import Sck.Driver.ValidateOps
 import Sck.Driver.L3Ops
 import Sck.Driver.GsMirrorOps
 import Sck.Driver.MirrorOps
+import Sck.Driver.WeightBoundOps
 import Sck.Driver.RuleOps
 import Sck.Model.Profile
 import Sck.Model.Preflib
@@ -477,7 +478,7 @@ def dispatch : String → Option (P String)
   | "preflib" => some opPreflib
   | "prefrow" => some opPrefRow
   | op => (((((dispatchDfs op).orElse (fun _ => dispatchBvn op)).orElse (fun _ => dispatchIrving op)).orElse (fun _ => dispatchRules op)).orElse
-      (fun _ => dispatchBrute op)).orElse (fun _ => dispatchFlowHelpers op) |>.orElse (fun _ => dispatchValidate op) |>.orElse (fun _ => dispatchL3 op) |>.orElse (fun _ => dispatchGsMirror op) |>.orElse (fun _ => dispatchMirror op)
+      (fun _ => dispatchBrute op)).orElse (fun _ => dispatchFlowHelpers op) |>.orElse (fun _ => dispatchValidate op) |>.orElse (fun _ => dispatchL3 op) |>.orElse (fun _ => dispatchGsMirror op) |>.orElse (fun _ => dispatchMirror op) |>.orElse (fun _ => dispatchWeightBound op)
 
 def handle (line : String) : String :=
   let toks := (line.splitOn " ").map (fun s => s.trimAscii.toString) |>.filter (· ≠ "")
